@@ -1,0 +1,31 @@
+//go:build verif
+
+// Contracts for package settings, checked by /verif (govc). Comment-only.
+package settings
+
+// ---------------------------------------------------------------------------------------------
+// C15: a locally written settings change (a deletion record) is folded into the deletion state the way
+// the tree says it was added: when the add re-rooted the tree (Mode == Rebuild, e.g. the change was
+// written as a snapshot) the state is rebuilt from scratch, otherwise it is updated incrementally - an
+// incremental update after a re-rooting would iterate nothing and silently lose the deletion.
+//@ ghost setRebuilds Int stable
+//@ ghost setUpdates Int stable
+//@ ghost setAddMode Int stable
+//@ ghost setAddErr Iface stable
+//@ func (*settingsObject).Rebuild
+//@   sets setRebuilds = setRebuilds + 1
+//@ func (*settingsObject).Update
+//@   sets setUpdates = setUpdates + 1
+//@ func iface synctree.SyncTree.AddContent
+//@   modifies nothing
+//@   sets setAddMode = result0.Mode
+//@   sets setAddErr = result1
+//@ func iface accountservice.Service.Account
+//@   modifies nothing
+//@   posits result != nil
+//@ func (*settingsObject).addContent
+//@   requires s != nil && s.account != nil
+//@   assumes s.SyncTree != nil
+//@   ensures [failed_add_changes_nothing]      err != nil ==> setRebuilds == old(setRebuilds) && setUpdates == old(setUpdates)
+//@   ensures [rerooting_add_rebuilds_state]    err == nil && setAddMode == 1 ==> setRebuilds == old(setRebuilds) + 1 && setUpdates == old(setUpdates)
+//@   ensures [appending_add_updates_state]     err == nil && setAddMode != 1 ==> setUpdates == old(setUpdates) + 1 && setRebuilds == old(setRebuilds)
